@@ -13,6 +13,7 @@ from concurrent.futures import ThreadPoolExecutor
 
 VERIF = os.path.dirname(os.path.dirname(os.path.abspath(__file__)))
 REPO = os.environ.get('F8_REPO', '/repo')
+WITNESS_FIELDS = os.path.join(VERIF, 'witness', 'inst_fields.cpp')
 BIN = os.path.join(VERIF, 'bin', 'f8facts')
 CACHE = os.path.join(VERIF, '.cache')
 RESOURCE_INC = '/usr/lib/llvm-14/lib/clang/14.0.6/include'
@@ -106,8 +107,11 @@ def tree_key(repo=None):
                     continue
                 h.update(os.path.relpath(p, repo).encode())
                 h.update(hashlib.sha256(data).digest())
-    for extra in ('include/fix8/f8config.h',):
-        pass
+    wdir = os.path.join(VERIF, 'witness')
+    for fn in sorted(os.listdir(wdir)) if os.path.isdir(wdir) else []:
+        with open(os.path.join(wdir, fn), 'rb') as f:
+            h.update(fn.encode())
+            h.update(hashlib.sha256(f.read()).digest())
     _tree_key[repo] = h.hexdigest()[:24]
     return _tree_key[repo]
 
